@@ -50,6 +50,7 @@ class Roles:
         # method name of Range -> (parameter, [element expression over self/parameter | None]) for methods that return a tuple display
         # on every path (see pair_summaries); filled by r5
         self.pairs: T.Dict[str, T.Tuple[str, T.List[T.Optional[ast.AST]]]] = {}
+        self.constant_slots: T.Dict[str, T.Set[int]] = {}        # method -> elements that are a literal constant on every return
 
     def defs(self, fn: FuncNode) -> T.Dict[str, T.List[T.Optional[ast.AST]]]:
         """local name -> the expressions bound to it anywhere in fn (None: bound in a way the rule does not read)."""
@@ -109,6 +110,8 @@ class Roles:
             # element of the pair returned by a Range method: the element expression with self/parameter replaced by receiver/argument
             param, elts = self.pairs[e.value.func.attr]
             operand = _one_arg(e.value, param)
+            if operand is not None and 0 <= e.slice.value < len(elts) and elts[e.slice.value] is None and e.slice.value in self.constant_slots.get(e.value.func.attr, ()):
+                return {f'element {e.slice.value} of the pair returned by Range.{e.value.func.attr} (a constant answer, not a range)'}
             if operand is not None and 0 <= e.slice.value < len(elts) and elts[e.slice.value] is not None:
                 recv = e.value.func.value
 
@@ -149,6 +152,9 @@ class Roles:
         return {f'?{short(e, 60)}'}
 
 
+CONSTANT_SLOTS: T.Dict[str, T.Set[int]] = {}     # filled by pair_summaries (per run)
+
+
 def pair_summaries(umod: Module) -> T.Tuple[T.Dict[str, T.Tuple[str, T.List[T.Optional[ast.AST]]]], T.Dict[str, int]]:
     """Closed-world reading of the Range class for call sites in other modules (round 13: a query merged with its sibling into one
     method that returns both answers).  Returns
@@ -160,6 +166,7 @@ def pair_summaries(umod: Module) -> T.Tuple[T.Dict[str, T.Tuple[str, T.List[T.Op
     from .c19_norm import normal_form
     pairs: T.Dict[str, T.Tuple[str, T.List[T.Optional[ast.AST]]]] = {}
     verdict: T.Dict[str, int] = {}
+    CONSTANT_SLOTS.clear()
     try:
         rng = umod.cls('Range')
     except Exception:       # noqa: BLE001  (anchors of the class are R4's business)
@@ -197,7 +204,9 @@ def pair_summaries(umod: Module) -> T.Tuple[T.Dict[str, T.Tuple[str, T.List[T.Op
             texts = {norm(r.value.elts[i]) for r in rets}  # type: ignore[union-attr]
             e0 = rets[0].value.elts[i]                     # type: ignore[union-attr]
             names = {n.id for n in ast.walk(e0) if isinstance(n, ast.Name)}
-            elts.append(e0 if len(texts) == 1 and names <= {'self', params[1]} else None)
+            elts.append(e0 if len(texts) == 1 and names <= {'self', params[1]} and not isinstance(e0, ast.Constant) else None)
+            if all(isinstance(r.value.elts[i], ast.Constant) for r in rets):      # type: ignore[union-attr]
+                CONSTANT_SLOTS.setdefault(m.name, set()).add(i)
         pairs[m.name] = (params[1], elts)
     verdict = {m: k for m, k in verdict.items() if m in pairs and 0 <= k < len(pairs[m][1])}
     return pairs, verdict
@@ -254,6 +263,7 @@ def r5(ctx: RuleCtx) -> None:
     probe = ast.parse('def f(self):\n    p = m.project_meson_versions[self.subproject]\n    c = self.tmp_meson_version\n    return p.intersect(c)\n').body[0]
     assert roles.role(probe, probe.body[-1].value) == {'N'}, 'role reader self-test'     # type: ignore[attr-defined]
     roles.pairs, verdict = pair_summaries(ctx.repo.module(UNIVERSAL))
+    roles.constant_slots = {k: set(v) for k, v in CONSTANT_SLOTS.items()}
 
     # (a) Range.always is asymmetric: receiver = what the project allows, argument = the condition
     n_always = 0
